@@ -63,6 +63,8 @@ def register(w):
         note="recomputes the declared shape of the node's first output from the declared shapes of its inputs; writes nothing else (the broadcast rule itself is the C08 bounded stand-in)",
     ))
 
+    for flag in ("DEBUG", "RSH_DEBUG", "TRN_DEBUG", "DCE_DEBUG", "TM_DEBUG"):
+        w.global_overrides[(MO, flag)] = VBool(z3.BoolVal(False))     # debug output off (semantics note: debug branches are no-ops)
     allowed_ops = sorted(code_table("ALLOWED_ELEMWISE"))
 
     def is_allowed(op_term):
@@ -133,8 +135,8 @@ def register(w):
         last = chain_value(h, A, T1_out.term, L)
         per_node, noesc = chain_facts(h, graph, nodes, A, T1_out.term, True)
         cv_term = cvv.term if isinstance(cvv, VRef) else (cvv.val.term if isinstance(cvv, VOpt) else None)
-        cv_ok = z3.BoolVal(False) if cv_term is None else (z3.And(z3.Not(cvv.is_none), cv_term == last) if isinstance(cvv, VOpt) else cv_term == last)
-        t2_none = z3.BoolVal(True) if isinstance(T2, VNone) else (T2.is_none if isinstance(T2, VOpt) else z3.BoolVal(False))
+        cv_ok = z3.BoolVal(False) if cv_term is None else (z3.And(z3.Not(cvv.isnone), cv_term == last) if isinstance(cvv, VOpt) else cv_term == last)
+        t2_none = z3.BoolVal(True) if isinstance(T2, VNone) else (T2.isnone if isinstance(T2, VOpt) else z3.BoolVal(False))
         return [("no_second_transpose_yet", t2_none), ("length", L >= 0),
                 ("chain_value_is_the_output_of_the_last_chain_node", cv_ok),
                 ("cur_is_the_only_consumer_of_the_chain_value", z3.And(h.in_seq(nodes, cur.term), h.reads(cur.term, last), z3.ForAll([n], z3.Implies(z3.And(h.in_seq(nodes, n), h.reads(n, last)), n == cur.term)))),
@@ -281,6 +283,290 @@ def register(w):
         track_alloc=True, ret=NoneT, props=["C02", "C08", "C12"], opaque_externals=True, witnesses=["C02_transpose_pair_family"],
         modifies=[(NODE, "inputs"), (GRAPH, "nodes"), (GRAPH, "outputs"), (VALUE, "shape")],
     ))
+
+    # =====================================================================
+    # T10  remove_redundant_reshape_pairs_ir
+    #   Reshape(x -> s1) -> f_L -> ... -> f_1 -> Reshape(-> s2) with shape(x) = s2-result, every f pointwise in its input 0 with
+    #   broadcast-scalar side operands that do not out-rank x, every chain value seen only inside the chain     ==>   f_L..f_1 on x
+    #   (the walk goes upwards from the second Reshape: allowed_nodes[0] is the node next to it)
+    # =====================================================================
+    value_rank = w.fn("value_rank", V, z3.IntSort(), z3.IntSort())      # (value, heap version): number of axes at run time
+    w.add_contract(Contract(
+        f"{MO}:_value_rank", params={"val": Opt(Ref(VALUE))}, ret=Opt(Int), assumed=True,
+        ensures=[("is_the_rank", lambda c: z3.BoolVal(isinstance(c.result, VNone)) if isinstance(c["val"], VNone) else (
+            z3.BoolVal(True) if isinstance(c.result, VNone) else z3.And(c.result.term == value_rank(c["val"].term, hv(c.ex)), c.result.term >= 0)))],
+        note="number of axes of the constant payload if the value has one, otherwise of its declared shape (the run-time rank, declarations being truthful: C08); None when neither is known",
+    ))
+
+    def fit_ok(ex, n, data, rank_term):
+        ins = ex.heap_arrays(NODE, "inputs")
+        j = z3.Int("j!fr")
+        x = sel(sel(ins[0], n), j)
+        op = sel(ex.heap_arrays(NODE, "op_type")[0], n)
+        return z3.ForAll([j], z3.Implies(z3.And(0 <= j, j < sel(ins[1], n)),
+                                        z3.Or(x == null_of(VALUE), x == data, z3.And(op == z3.StringVal("CastLike"), j == 1), value_rank(x, hv(ex)) <= rank_term)))
+
+    def opt_ref_term(v):
+        if isinstance(v, VRef):
+            return v.term
+        if isinstance(v, VNone):
+            return null_of(VALUE)
+        if isinstance(v, VOpt):
+            return z3.If(v.isnone, null_of(VALUE), v.val.term)
+        raise OutOfSubset(f"optional value of unexpected kind {v!r}")
+
+    def post_fit(c: Ctx):
+        r = c["rank"]
+        if isinstance(r, VNone):
+            return z3.Not(c.result.term)
+        rt = r.val.term if isinstance(r, VOpt) else r.term
+        notnone = z3.Not(r.isnone) if isinstance(r, VOpt) else z3.BoolVal(True)
+        return z3.Implies(c.result.term, z3.And(notnone, fit_ok(c.ex, c["node"].term, opt_ref_term(c["data_value"]), rt)))
+
+    def inv_fit(lc):
+        ex = lc.ex
+        r = lc["rank"]
+        rt = r.val.term if isinstance(r, VOpt) else r.term
+        ins = ex.read_field(lc["node"], "inputs")
+        k = z3.Int("k")
+        data = opt_ref_term(lc["data_value"])
+        op = sel(ex.heap_arrays(NODE, "op_type")[0], lc["node"].term)
+        x = sel(ins.arrs[0], k)
+        return [("prefix_fits", z3.ForAll([k], z3.Implies(z3.And(0 <= k, k < lc.idx), z3.Or(x == null_of(VALUE), x == data, z3.And(op == z3.StringVal("CastLike"), k == 1), value_rank(x, hv(ex)) <= rt))))]
+
+    w.add_contract(Contract(
+        f"{MO}:_side_inputs_fit_rank", params={"node": Ref(NODE), "data_value": Opt(Ref(VALUE)), "rank": Opt(Int)},
+        loops={0: LoopSpec(invariant=inv_fit, label="inputs")},
+        ensures=[("no_other_operand_out_ranks_the_data_operand", post_fit)], raises=set(), ret=Bool, props=["C02"], witnesses=["C02_reshape_pair_family"],
+    ))
+
+    def wf10(ex, graph):
+        n = z3.Const("n!wf", N)
+        op = sel(ex.heap_arrays(NODE, "op_type")[0], n)
+        n_out, n_in = sel(ex.heap_arrays(NODE, "outputs")[1], n), sel(ex.heap_arrays(NODE, "inputs")[1], n)
+        return [("every_node_has_an_output", z3.ForAll([n], n_out >= 1)),
+                ("reshape_nodes_have_one_output", z3.ForAll([n], z3.Implies(op == z3.StringVal("Reshape"), n_out == 1))),
+                ("foldable_elementwise_nodes_have_one_output", z3.ForAll([n], z3.Implies(is_allowed(op), n_out == 1)))]
+
+    def in0(ex, n):
+        ins = ex.heap_arrays(NODE, "inputs")
+        return z3.If(sel(ins[1], n) >= 1, sel(sel(ins[0], n), 0), null_of(VALUE))
+
+    def up_value(ex, A, t2, k):
+        """u(0) = input 0 of the second Reshape, u(k) = input 0 of allowed_nodes[k-1]"""
+        return z3.If(k == 0, in0(ex, t2), in0(ex, sel(A.arrs[0], k - 1)))
+
+    def up_facts(ex, A, t2, upto):
+        h = H(ex)
+        k = z3.Int("k!up")
+        a_k = sel(A.arrs[0], k)
+        dom = sel(ex.heap_arrays(NODE, "domain")[0], a_k)
+        return z3.ForAll([k], z3.Implies(z3.And(0 <= k, k < upto), z3.And(
+            is_allowed(h.op(a_k)), dom == z3.StringVal(""), h.out0(a_k) == up_value(ex, A, t2, k), up_value(ex, A, t2, k) != null_of(VALUE),
+            h.side_ok(a_k, in0(ex, a_k)))))
+
+    def inv_up(lc):
+        ex = lc.ex
+        A, T2, T1, v = lc["allowed_nodes"], lc["T2"], lc["T1"], lc["v"]
+        if not (isinstance(A, VSeq) and isinstance(T2, VRef)):
+            raise OutOfSubset("upward walk variables have unexpected kinds")
+        t1_none = z3.BoolVal(True) if isinstance(T1, VNone) else (T1.isnone if isinstance(T1, VOpt) else z3.BoolVal(False))
+        return [("no_first_reshape_yet", t1_none), ("length", A.length >= 0),
+                ("v_is_the_value_read_by_the_last_collected_node", opt_ref_term(v) == up_value(ex, A, T2.term, A.length)),
+                ("collected_nodes_are_foldable_and_linked", up_facts(ex, A, T2.term, A.length))]
+
+    def members(ex, lc):
+        """chain membership as the code tests it: `consumer in chain_nodes or consumer is T2`"""
+        cn, T2 = lc["chain_nodes"], lc["T2"]
+        if not isinstance(cn, VSet):
+            raise OutOfSubset("chain_nodes is not a set")
+        return lambda n: z3.Or(sel(cn.arr, n), n == T2.term)
+
+    def inv_cons_t1(lc):
+        ex = lc.ex
+        mem = members(ex, lc)
+        k = z3.Int("k")
+        return [("still_safe", ex.truthy(lc["safe_chain"])), ("consumers_so_far_are_chain_members", z3.ForAll([k], z3.Implies(z3.And(0 <= k, k < lc.idx), mem(sel(lc.seq.arrs[0], k)))))]
+
+    def inv_nodes_outer(lc):
+        ex = lc.ex
+        mem = members(ex, lc)
+        h = H(ex)
+        k, n = z3.Int("k"), z3.Const("n!no", N)
+        nodes = lc["nodes"]
+        body = lambda kk: z3.ForAll([n], z3.Implies(z3.And(h.in_seq(nodes, n), h.reads(n, h.out0(sel(lc.seq.arrs[0], kk)))), mem(n)))  # noqa: E731
+        if lc.phase == "inv-step":
+            # (forall k < i+1. phi(k))  ==  (forall k < i. phi(k)) and phi(i): two smaller obligations
+            i = z3.simplify(lc.idx - 1)
+            return [("still_safe", ex.truthy(lc["safe_chain"])),
+                    ("outputs_of_the_earlier_chain_nodes_feed_only_chain_members", z3.ForAll([k], z3.Implies(z3.And(0 <= k, k < i), body(k)))),
+                    ("output_of_this_chain_node_feeds_only_chain_members", body(i))]
+        return [("still_safe", ex.truthy(lc["safe_chain"])),
+                ("outputs_of_the_chain_nodes_so_far_feed_only_chain_members", z3.ForAll([k], z3.Implies(z3.And(0 <= k, k < lc.idx), body(k))))]
+
+    def inv_refresh10(lc):
+        ex = lc.ex
+        A = lc.seq
+        k, v = z3.Int("k!rf"), z3.Const("v!rfi", V)
+        E = muts(ex)
+        P = Pre(ex, E[0][-3]) if E else None
+        shp = ex.heap_arrays(VALUE, "shape")[0]
+        items = [("prefix_refreshed", z3.ForAll([k], z3.Implies(z3.And(0 <= k, k < lc.idx), sel(refreshed_arr(ex), sel(A.arrs[0], k)))))]
+        if P is not None:
+            pshp = P.arrays(VALUE, "shape")[0]
+            h = H(ex)
+            items.append(("only_chain_outputs_change_their_declared_shape", z3.ForAll([v], z3.Or(sel(shp, v) == sel(pshp, v), z3.Exists([k], z3.And(0 <= k, k < lc.idx, v == h.out0(sel(A.arrs[0], k))))))))
+        return items
+
+    same_extent, dims_of = w.c02_same_extent, w.c02_dims_of
+
+    def hook10(lc):
+        ex = lc.ex
+        graph = lc["graph"].term
+        if lc.phase == "assume":
+            ex.events[:] = [e for e in ex.events if not (e and e[0] == "mut")]
+            ex.ghost.pop("refreshed", None)
+            for f in structurally_valid(ex):
+                ex.pc.append(f)
+            return wf10(ex, graph)
+        E = muts(ex)
+        obl = wf10(ex, graph)
+        if lc.phase != "inv-step" or not E:
+            return obl
+        kinds = [e[1] for e in E]
+        core = [k_ for k_ in kinds if k_ not in ("refresh", "set_meta")]
+        T1, T2, A, nodes, src = lc.get("T1"), lc.get("T2"), lc.get("allowed_nodes"), lc.get("nodes"), lc.get("src")
+        P = Pre(ex, E[0][-3])
+        hv0 = E[0][-2]["hv"]
+        n_rauw = sum(1 for c_ in core if c_ == "rauw")
+        if isinstance(T1, VOpt):
+            T1 = T1.val
+        if isinstance(src, VOpt):
+            src = src.val
+        shape_ok = (n_rauw in (1, 2) and core[:n_rauw] == ["rauw"] * n_rauw and all(c_ == "remove" for c_ in core[n_rauw:])
+                    and isinstance(T1, VRef) and isinstance(T2, VRef) and isinstance(nodes, VSeq) and isinstance(A, VSeq) and isinstance(src, VRef))
+        if getattr(ex, "branch_log", None) and __import__("os").environ.get("PYVC_TRACE_BRANCHES"):
+            print("TXNPATH", [(ln, int(d)) for ln, d, _ in ex.branch_log])
+        obl.append(("txn-effect:T10.events_are_bypasses_then_removals", z3.BoolVal(shape_ok)))
+        if not shape_ok:
+            return obl
+        t1, t2 = T1.term, T2.term
+        L = A.length
+        rauws, rems = [e for e in E if e[1] == "rauw"], [e for e in E if e[1] == "remove"]
+        removed = [e[3].term for e in rems]
+        obl.append(("txn-effect:T10.only_the_two_reshapes_are_removed_and_from_this_graph", z3.And([z3.And(z3.Or(r_ == t1, r_ == t2), e[2].term == graph) for r_, e in zip(removed, rems)] + [z3.BoolVal(True)])))
+        k, n = z3.Int("k"), z3.Const("n!t10", N)
+        cur = ex.heap
+        ex.heap = dict(P.snap)
+        hv_now = ex.ghost.get("heap_version")
+        ex.ghost["heap_version"] = hv0
+        try:
+            h = H(ex)
+            x = in0(ex, t1)
+            std = lambda nd: z3.And(h.op(nd) == z3.StringVal("Reshape"), sel(ex.heap_arrays(NODE, "domain")[0], nd) == z3.StringVal(""))  # noqa: E731
+            t1_out = h.out0(t1)
+            in_chain = lambda m_: z3.Exists([k], z3.And(0 <= k, k < L, sel(A.arrs[0], k) == m_))  # noqa: E731
+            F = lc.get("allowed_fwd")
+            if not isinstance(F, VSeq):
+                F = A
+            cn = lc.get("chain_nodes")
+            if isinstance(cn, VSet):
+                # membership as the code tested it; that this set holds chain nodes only is a fact of its own
+                member = lambda m_: z3.Or(sel(cn.arr, m_), m_ == t2)  # noqa: E731
+                set_ok = z3.ForAll([n], z3.Implies(sel(cn.arr, n), in_chain(n)))
+            else:
+                member = lambda m_: z3.Or(in_chain(m_), m_ == t2)  # noqa: E731
+                set_ok = z3.BoolVal(True)
+            readers_in_chain = lambda val: z3.ForAll([n], z3.Implies(z3.And(P.in_graph(graph, n), h.reads(n, val)), member(n)))  # noqa: E731
+            unobs = lambda val: z3.And(z3.ForAll([n], z3.Implies(z3.And(P.in_graph(graph, n), h.reads(n, val)), member(n))), z3.Not(h.escapes(graph, val)))  # noqa: E731
+            sx, (tx, ix, yx, nx) = dims_of(ex, x)
+            dst = h.out0(t2)
+            sd, (td, idd, yd, nd_) = dims_of(ex, dst)
+            facts = [
+                ("txn-facts:T10.pair_of_standard_reshapes_linked_through_the_chain", z3.And(std(t1), std(t2), x != null_of(VALUE), x == src.term, t1_out == up_value(ex, A, t2, L))),
+                ("txn-facts:T10.every_chain_node_is_a_standard_pointwise_operator_in_its_input_0_with_scalar_side_operands", up_facts(ex, A, t2, L)),
+                ("txn-facts:T10.source_and_final_value_declare_the_same_shape_for_every_binding", z3.And(sx != null_of(SHAPE), sd != null_of(SHAPE), nx == nd_, z3.ForAll([k], z3.Implies(z3.And(0 <= k, k < nx), same_extent(ex, (sel(tx, k), sel(ix, k), sel(yx, k)), (sel(td, k), sel(idd, k), sel(yd, k))))))),
+                ("txn-facts:T10.no_side_operand_out_ranks_the_source", z3.ForAll([k], z3.Implies(z3.And(0 <= k, k < L), fit_ok(ex, sel(A.arrs[0], k), in0(ex, sel(A.arrs[0], k)), value_rank(x, hv0))))),
+                ("txn-facts:T10.first_reshape_output_is_seen_only_inside_the_chain", unobs(t1_out)),
+                ("txn-facts:T10.chain_outputs_are_read_only_inside_the_chain", z3.ForAll([k], z3.Implies(z3.And(0 <= k, k < F.length), readers_in_chain(h.out0(sel(F.arrs[0], k)))))),
+                ("txn-facts:T10.no_chain_output_is_a_graph_output_or_captured_by_a_nested_body", z3.ForAll([k], z3.Implies(z3.And(0 <= k, k < F.length), z3.Not(h.escapes(graph, h.out0(sel(F.arrs[0], k))))))),
+                ("txn-facts:T10.the_forward_list_enumerates_exactly_the_collected_chain_nodes", z3.And(F.length == L, z3.Or(
+                    z3.ForAll([k], z3.Implies(z3.And(0 <= k, k < L), sel(A.arrs[0], k) == sel(F.arrs[0], k))),
+                    z3.ForAll([k], z3.Implies(z3.And(0 <= k, k < L), sel(A.arrs[0], k) == sel(F.arrs[0], L - 1 - k)))))),
+                ("txn-facts:T10.the_membership_set_holds_chain_nodes_only", set_ok),
+            ]
+            last_out = h.out0(sel(A.arrs[0], 0))
+        finally:
+            for kk, vv in ex.heap.items():
+                cur.setdefault(kk, vv)
+            ex.heap = cur
+            ex.ghost["heap_version"] = hv_now
+        obl.extend(facts)
+        if n_rauw == 1:
+            r = rauws[0]
+            obl.append(("txn-facts:T10.empty_chain_when_a_single_bypass_happens", L == 0))
+            obl.append(("txn-effect:T10.second_reshape_output_replaced_by_the_source_of_the_first_everywhere", z3.And(r[2].term == P.out(t2, 0), r[3].term == src.term, ex.truthy(r[4]))))
+        else:
+            r0, r1 = rauws
+            obl.append(("txn-facts:T10.nonempty_chain_when_two_bypasses_happen", L >= 1))
+            obl.append(("txn-effect:T10.first_reshape_output_replaced_by_its_source_everywhere", z3.And(r0[2].term == P.out(t1, 0), r0[3].term == src.term, ex.truthy(r0[4]))))
+            obl.append(("txn-effect:T10.second_reshape_output_replaced_by_the_last_chain_output_everywhere", z3.And(r1[2].term == P.out(t2, 0), r1[3].term == last_out, ex.truthy(r1[4]))))
+            ref = ex.ghost.get("refreshed")
+            first_rauw_i = E.index(r0)
+            refresh_after_rewire = all(E.index(e) > first_rauw_i for e in E if e[1] == "refresh")
+            # (over the forward list; that it enumerates exactly the collected nodes is a fact of its own)
+            obl.append(("txn-effect:T10.declared_shapes_of_all_moved_chain_nodes_recomputed_after_rewiring", z3.And(
+                z3.BoolVal(ref is not None and refresh_after_rewire),
+                z3.ForAll([k], z3.Implies(z3.And(0 <= k, k < F.length), sel(ref, sel(F.arrs[0], k)))) if ref is not None else z3.BoolVal(False))))
+        shp, ty = ex.heap_arrays(VALUE, "shape")[0], ex.heap_arrays(VALUE, "type")[0]
+        pshp, pty = P.arrays(VALUE, "shape")[0], P.arrays(VALUE, "type")[0]
+        v = z3.Const("v!md", V)
+        obl.append(("txn-effect:T10.only_moved_chain_outputs_change_their_declared_shape_and_no_declared_type_changes", z3.ForAll([v], z3.And(
+            sel(ty, v) == sel(pty, v),
+            z3.Or(sel(shp, v) == sel(pshp, v), z3.Exists([k], z3.And(0 <= k, k < L, v == P.out(sel(A.arrs[0], k), 0))))))))
+        return obl
+
+    w.add_contract(Contract(
+        f"{MO}:remove_redundant_reshape_pairs_ir", params={"graph": Ref(GRAPH)},
+        requires=[("valid_graph", lambda c: z3.And([f for _, f in wf10(c.ex, c["graph"].term)]))],
+        loops={0: LoopSpec(invariant=hook10, label="transactions"), 1: LoopSpec(heap_unchanged=True, label="scan"),
+               2: LoopSpec(invariant=inv_up, heap_unchanged=True, label="walk-up", types={"v": Opt(Ref(VALUE)), "T1": Opt(Ref(NODE)), "prod_node": Opt(Ref(NODE))}),
+               3: LoopSpec(invariant=inv_cons_t1, heap_unchanged=True, label="consumers-of-T1"),
+               4: LoopSpec(invariant=inv_nodes_outer, heap_unchanged=True, label="chain-outputs"),
+               5: LoopSpec(invariant=inv_cons_t1, heap_unchanged=True, label="consumers-of-chain-output"),
+               6: LoopSpec(invariant=inv_refresh10, ghost_havoc=ghost_havoc_refresh, label="refresh")},
+        local_types={"allowed_nodes": Seq(Ref(NODE))},
+        track_alloc=True, deep_feasibility=True, ret=NoneT, props=["C02", "C08"], opaque_externals=True, witnesses=["C02_reshape_pair_family", "D2", "D3b"],
+        modifies=[(NODE, "inputs"), (GRAPH, "nodes"), (GRAPH, "outputs"), (VALUE, "shape")],
+    ))
+
+    def law10(part):
+        def lemma(world):
+            T, S, F = z3.DeclareSort("TensorL"), z3.DeclareSort("ShapeL"), z3.DeclareSort("PointwiseL")
+            Rs = z3.Function("ReshapeL", S, T, T)                 # Reshape(x, target)
+            shape_of = z3.Function("shapeL", T, S)
+            app = z3.Function("applyL", F, T, T)                  # pointwise operator with broadcast-scalar side operands that do not out-rank its data operand
+            den, den2 = z3.Function("den_before", z3.IntSort(), T), z3.Function("den_after", z3.IntSort(), T)
+            f = z3.Function("chain_op", z3.IntSort(), F)
+            s1, s2, x, g, s = z3.Const("s1", S), z3.Const("s2", S), z3.Const("x", T), z3.Const("g", F), z3.Const("s", S)
+            L, k, j = z3.Int("L"), z3.Int("k"), z3.Int("j")
+            A6a = z3.ForAll([s, x], Rs(shape_of(x), Rs(s, x)) == x)                            # reshaping back to the own shape
+            A6b = z3.ForAll([g, s, x], app(g, Rs(s, x)) == Rs(s, app(g, x)))                   # pointwise operators commute with Reshape
+            A6c = z3.ForAll([g, x], shape_of(app(g, x)) == shape_of(x))                        # ... and keep the shape of the data operand
+            chain = [L >= 0, den(0) == Rs(s1, x), den2(0) == x,
+                     z3.ForAll([j], z3.Implies(z3.And(0 <= j, j < L), z3.And(den(j + 1) == app(f(j), den(j)), den2(j + 1) == app(f(j), den2(j)))))]
+            ih = lambda i: z3.And(den(i) == Rs(s1, den2(i)), shape_of(den2(i)) == shape_of(x))  # noqa: E731
+            if part == "base":
+                return ([A6a, A6b, A6c] + chain, ih(0))
+            if part == "step":
+                return ([A6a, A6b, A6c] + chain + [0 <= k, k < L, ih(k)], ih(k + 1))
+            return ([A6a, A6b, A6c] + chain + [z3.ForAll([j], z3.Implies(z3.And(0 <= j, j <= L), ih(j))), s2 == shape_of(x)], Rs(s2, den(L)) == den2(L))
+        return lemma
+    w.add_contract(Contract(f"{MO}:<law-T10>", kind="lemma", props=["C02"], ensures=[
+        ("base_first_chain_value_is_the_reshaped_source", law10("base")),
+        ("step_pointwise_operators_commute_with_reshape_and_keep_the_shape", law10("step")),
+        ("conclusion_reshaping_the_last_chain_value_to_the_source_shape_is_the_chain_on_the_source", law10("end"))]))
+    w.trust("A6 a pointwise operator whose other operands are broadcast scalars of rank <= the rank of its data operand commutes with Reshape and keeps the data operand's shape; Reshape(Reshape(x, s), shape(x)) = x")
 
     # ---- law of T8/T9 in the tensor algebra (induction over the chain written out: base, step, conclusion)
     def law(part):
